@@ -38,13 +38,13 @@ Definition ztab := list (Z * bytes * bytes).
 Definition toy_zenc (t : ztab) (l : Z) (d : bytes) : bytes :=
   match find (fun '(l0, d0, _) => (l0 =? l)%Z && beq_bytes d0 d) t with
   | Some (_, _, f) => f
-  | None => 40 :: 181 :: 47 :: 253 :: d          (* fallback: magic ‖ data, still invertible *)
+  | None => 1000 :: d        (* fallback: a tag no real byte string starts with; invertible *)
   end.
 Definition toy_zdec (t : ztab) (f : bytes) : option bytes :=
   match find (fun '(_, _, f0) => beq_bytes f0 f) t with
   | Some (_, d, _) => Some d
   | None => match f with
-            | 40 :: 181 :: 47 :: 253 :: d => Some d
+            | 1000 :: d => Some d
             | _ => None
             end
   end.
